@@ -13,6 +13,7 @@ import (
 func init() {
 	register(&Prop{
 		ID:        "C36",
+		Level:     "proof",
 		Technique: "table extraction over the type-checked AST (constants, map literals, switch cases) with exhaustive evaluation of the finite version domain 0..64 and type-level resolution of constructor result types",
 		Explanation: "(1) BlockHeaderToBlockTypeMap and BlockToBlockHeaderTypeMap are mutually inverse. (2) Each era's Min/MaxProtocolVersion constants satisfy Min ≤ Max and the ranges are pairwise disjoint. (3) inProtocolRange is min ≤ v ≤ max; in DetermineBlockType every case tests the range with the Min and Max constants of one era and returns that same era's block type; evaluating both layout switches for every major version 0..64 with the declared constants yields at most one type per version within a layout, never different eras for one version across layouts, and only versions inside the returned era's declared range. " +
 			"(4) In NewBlockFromCbor and NewBlockHeaderFromCbor every case for block-type constant T calls (through the package-level function aliases) a constructor whose declared result type has Type() returning a constant equal to T (blocks) and Era() returning the era variable declared in the package that declares T, whose Id equals BlockToBlockHeaderTypeMap[T] for the post-Byron eras; every block type constant has a case.",
